@@ -9,6 +9,8 @@ import traceback
 from concurrent.futures import ProcessPoolExecutor
 
 REPO = os.environ.get("VERIF_REPO", "/repo")
+_MAIN_PID = os.getpid()
+_MAIN_PROCESS_KEEPS_CWD = True
 
 
 def _init():
@@ -17,6 +19,11 @@ def _init():
     import warnings
     warnings.filterwarnings("ignore")
     sys.setrecursionlimit(10000)
+    # external solvers (maxsatz) drop files into the current directory: keep them out of /repo and /verif's tree
+    scratch = os.path.join(os.path.dirname(os.path.dirname(os.path.abspath(__file__))), "out", "cwd")
+    os.makedirs(scratch, exist_ok=True)
+    if not _MAIN_PROCESS_KEEPS_CWD or os.getpid() != _MAIN_PID:
+        os.chdir(scratch)
 
 
 class _Timeout(Exception):
